@@ -1,6 +1,7 @@
 package sim
 
 import (
+	"bytes"
 	"fmt"
 	"net"
 	"reflect"
@@ -53,6 +54,19 @@ func surfaces(c []byte) (grpEvent, bool) {
 	return grpEvent{v.APCI, v.Src, v.Dst, v.Data}, true
 }
 
+// addr16 draws a 16-bit address, the boundary values more often than chance would.
+func addr16(e *Env, kind string) uint16 {
+	switch e.Choose(kind+".edge", 8) {
+	case 0:
+		return 0
+	case 1:
+		return 0xffff
+	case 2:
+		return []uint16{1, 0x00ff, 0x0100, 0x7fff, 0x8000, 0xff00}[e.Choose(kind+".edgev", 6)]
+	}
+	return uint16(e.Choose(kind, 65536))
+}
+
 func runGroups(e *Env) {
 	s := e.S
 	router := e.Choose("cfg.router", 2) == 1
@@ -79,6 +93,7 @@ func runGroups(e *Env) {
 	var sent []grpEvent  // events handed to Send
 	var expIn []grpEvent // events that must surface on Inbound, in order
 	var gotIn []grpEvent
+	var held []knx.GroupEvent
 	inClosed := false
 	var gt knx.GroupTunnel
 	var gr knx.GroupRouter
@@ -148,6 +163,7 @@ func runGroups(e *Env) {
 				return
 			}
 			gotIn = append(gotIn, grpEvent{uint8(ev.Command), uint16(ev.Source), uint16(ev.Destination), append([]byte(nil), ev.Data...)})
+			held = append(held, ev) // the application keeps the event: what it holds must not change under its feet
 		}
 	})
 	// the workload: sends and injections interleaved by one task (so the expected order is known)
@@ -159,7 +175,7 @@ func runGroups(e *Env) {
 			doSend := ni == 0 || ns > 0 && e.Choose("wl.which", 2) == 0
 			if doSend {
 				ns--
-				ev := grpEvent{Cmd: uint8(e.Choose("wl.cmd", 3)), Src: uint16(e.Choose("wl.src", 65536)), Dst: uint16(e.Choose("wl.dst", 65536))}
+				ev := grpEvent{Cmd: uint8(e.Choose("wl.cmd", 3)), Src: addr16(e, "wl.src"), Dst: addr16(e, "wl.dst")}
 				n := []int{0, 1, 2, 14, 15, 16, 17, 100, 254}[e.Choose("wl.len", 9)]
 				ev.Data = make([]byte, n)
 				for i := range ev.Data {
@@ -187,7 +203,7 @@ func runGroups(e *Env) {
 			}
 			var c []byte
 			if e.Choose("wl.ctl", 5) == 0 {
-				c = mkLDataControl(code, uint8(e.Choose("wl.c1", 256)), ctrl2, uint16(e.Choose("wl.src", 65536)), uint16(e.Choose("wl.dst", 65536)), uint8(e.Choose("wl.ccmd", 4)))
+				c = mkLDataControl(code, uint8(e.Choose("wl.c1", 256)), ctrl2, addr16(e, "wl.src"), addr16(e, "wl.dst"), uint8(e.Choose("wl.ccmd", 4)))
 				if e.Choose("wl.ctllong", 3) == 0 {
 					// a control unit that announces a length and brings that many octets along (a
 					// malformed one: it would read as a group telegram if its control bit were ignored)
@@ -209,7 +225,7 @@ func runGroups(e *Env) {
 				if e.Choose("wl.apcilow", 2) == 0 {
 					apci = uint8(e.Choose("wl.apci3", 4))
 				}
-				c = mkLData(code, uint8(e.Choose("wl.c1", 256)), ctrl2, uint16(e.Choose("wl.src", 65536)), uint16(e.Choose("wl.dst", 65536)), apci, d, nil)
+				c = mkLData(code, uint8(e.Choose("wl.c1", 256)), ctrl2, addr16(e, "wl.src"), addr16(e, "wl.dst"), apci, d, nil)
 			}
 			if code == 0x2b || code == 0x10 || code == 0x2d || code == 0x2f || code == 0x55 {
 				c = append([]byte{code}, c[1:]...) // raw / busmon / unsupported: arbitrary bytes after the code
@@ -233,7 +249,7 @@ func runGroups(e *Env) {
 	for k := 1; k < nsenders; k++ {
 		s.Spawn(fmt.Sprintf("sender%d", k), func() {
 			for i := 0; i < 1+nsend/2; i++ {
-				ev := grpEvent{Cmd: uint8(e.Choose("wl.cmd", 3)), Src: uint16(e.Choose("wl.src", 65536)), Dst: uint16(e.Choose("wl.dst", 65536))}
+				ev := grpEvent{Cmd: uint8(e.Choose("wl.cmd", 3)), Src: addr16(e, "wl.src"), Dst: addr16(e, "wl.dst")}
 				n := []int{0, 1, 2, 14, 15, 16, 17, 100, 254}[e.Choose("wl.len", 9)]
 				ev.Data = make([]byte, n)
 				for j := range ev.Data {
@@ -404,6 +420,12 @@ func runGroups(e *Env) {
 					e.Violate("C17", "group-inbound-reordered", "the group Inbound channel yielded the accepted events in another order: position %d holds %s, accepted there was %s", i, gotIn[i], expIn[i])
 				}
 			}
+			break
+		}
+	}
+	for i, h := range held {
+		if i < len(gotIn) && !bytes.Equal(h.Data, gotIn[i].Data) {
+			e.Violate("C12", "inbound-event-changed-later", "the payload of the group event received at position %d read [%d]%x when it arrived and reads [%d]%x at the end of the run", i, len(gotIn[i].Data), clipBytes(gotIn[i].Data), len(h.Data), clipBytes(h.Data))
 			break
 		}
 	}
